@@ -38,7 +38,7 @@ def run(tier='quick', seed=0):
     n = 6 if tier == 'quick' else 40
     evals, failures, samples, distinct = 0, [], [], set()
     for k in range(n):
-        spec = models.random_spec(rng, ode_terms=(k % 2 == 0), derived=(k % 3 == 0), range_names=(k % 5 == 4))
+        spec = models.random_spec(rng, ode_terms=(k % 2 == 0), derived=(k % 3 == 0), range_names=(k % 5 == 4), short_names=(k % 4 == 1))
         backend = 'cython' if (tier != 'quick' and k % 8 == 0) else 'lambda'
         try:
             bad = check_spec(spec, rng, backend)
@@ -65,7 +65,7 @@ def run(tier='quick', seed=0):
                 failures.append({'key': 'model %d rebuilt with another derived-parameter definition' % k,
                                  'case': {'spec': twin, 'backend': 'lambda', 'history': [spec]}, 'observed': bad2[:4]})
     return {'evaluations': evals, 'distinct_nontrivial': len(distinct), 'failures': failures, 'samples': samples,
-            'rule': 'seeded random models (1-4 states, 1-4 parameters, 1-4 events of 1-3 T/B/D transitions, numeric or symbolic magnitudes, five rate kinds incl. time-periodic, optional ODE terms, derived parameter, range-style names; every model with a derived parameter is rebuilt in the same process with another definition of it); ode, vMat, rates, explicit terms against an independent sympy reconstruction at 2 points and the symbolic identity; distinct by definition',
+            'rule': 'seeded random models (1-4 states, 1-4 parameters, 1-4 events of 1-3 T/B/D transitions, numeric or symbolic magnitudes, five rate kinds incl. time-periodic, optional ODE terms, derived parameter, range-style names, one-letter lower-case names; every model with a derived parameter is rebuilt in the same process with another definition of it); ode, vMat, rates, explicit terms against an independent sympy reconstruction at 2 points and the symbolic identity; distinct by definition',
             'bound': '%d models x 2 points; cython back end on every 8th model in the thorough tier' % n}
 
 
